@@ -2,6 +2,7 @@
 // factories from the harness's operands (the region given is a REAL region: a root or a subregion made by the library) and returns
 // a mask of the property's clauses that do not hold (0 = all hold).  Written from the property text and <ipr/interface>.
 #include <impl.cxx>
+#include <traversal.cxx>      // default visitor hooks: a changed tree may ask for a node's category through util::view
 #include "factory_lib.hxx"
 namespace drv {
    using L = impl::Lexicon;
